@@ -15,6 +15,8 @@ for d in sorted(glob.glob('/verif/seeded/*')):
     fv = m.get('first_verdict') or ''
     if (hist.startswith('MISSED') or fv.startswith('MISSED')) and v == 'CAUGHT':
         v = 'MISSED at first, CAUGHT after strengthening'
+    if fv.startswith('INCONCLUSIVE') and v == 'CAUGHT':
+        v = 'INCONCLUSIVE at first (the check process aborted), CAUGHT since the engine attributes crashes'
     other = ''
     if m.get('disposition') and v != 'CAUGHT':
         if m.get('caught_by_other_property'):
